@@ -158,6 +158,11 @@ func runC10(r *Run) {
 	checkCallbackPaths(r, rem, m, k)
 	rem.Done()
 
+	// ---- re-entrancy: the agent's Stop/Collect/Close/Process call the handler synchronously
+	re := r.Rule("C10.reenter", "the agent callback calls a handler-invoking agent method (one whose *Agent implementation reaches a call of the agent's handler) only while the transaction is not registered in the client table: the nested callback must not find it", 1)
+	checkReenter(r, re, m, k)
+	re.Done()
+
 	// ---- rollback in Start
 	rb := r.Rule("C10.rollback", "in Start every path from a successful registration to a return of a non-nil error passes the client delete (so a failed Start never leaves a live handler)", 1)
 	{
@@ -484,5 +489,93 @@ func checkDo(r *Run, rc *RuleCtx, m *clientModel) {
 		if len(li.Held(in)) == 0 {
 			rc.Violation(he, instrPos(in), strings.TrimSpace(shortInstr(in))+" outside the condition lock", "the handshake steps must all happen while cond.L is held, otherwise Do can return between them")
 		}
+	}
+}
+
+// reentrantAgentMethods: names of the Agent methods that reach (through Agent methods) a call of the agent's handler.
+func reentrantAgentMethods(p *Prog) map[string]bool {
+	am, _ := resolveAgent(p)
+	out := map[string]bool{}
+	if am == nil || am.T == nil || am.Handler == nil {
+		return out
+	}
+	byFn := map[*ssa.Function]bool{}
+	for _, f := range am.Methods {
+		if len(handlerCalls(f, am.Handler)) > 0 {
+			byFn[f] = true
+		}
+	}
+	for changed := true; changed; {
+		changed = false
+		for _, f := range am.Methods {
+			if byFn[f] {
+				continue
+			}
+			eachInstr(f, func(b *ssa.BasicBlock, i int, in ssa.Instruction) {
+				if sc := staticCallee(in); sc != nil && byFn[sc] && !byFn[f] {
+					byFn[f] = true
+					changed = true
+				}
+			})
+		}
+	}
+	for f := range byFn {
+		out[f.Name()] = true
+	}
+	return out
+}
+
+func checkReenter(r *Run, rc *RuleCtx, m *clientModel, k *keyer) {
+	p := r.P
+	fn := m.Callback
+	reent := reentrantAgentMethods(p)
+	if len(reent) == 0 {
+		rc.Violation(fn, fn.Pos(), "no handler-invoking agent method found", "Agent model not recognised (undecided)")
+		return
+	}
+	var del *ssa.Call
+	for _, a := range sharedAccesses(fn, map[*types.Var]bool{m.Table: true}) {
+		if a.Kind == "mapdelete" {
+			del = a.In.(*ssa.Call)
+		}
+	}
+	if del == nil {
+		rc.Violation(fn, fn.Pos(), "no removal", "the callback does not remove the transaction it found")
+		return
+	}
+	const regBit = 1
+	var regCall *ssa.Call
+	rep := map[ssa.Instruction]bool{}
+	seen := map[ssa.Instruction]bool{}
+	q := &PathQuery{P: p, Fn: fn, From: del, K: k}
+	q.Step = func(in ssa.Instruction, deferred bool, st uint64, c *PathCtx) (uint64, bool) {
+		c2, ok := in.(*ssa.Call)
+		if !ok {
+			return st, false
+		}
+		if callsFn(c2, m.Reg) {
+			regCall = c2
+			return st | regBit, false
+		}
+		if callsFn(c2, m.Del) {
+			return st &^ regBit, false
+		}
+		if c2.Call.IsInvoke() {
+			if _, f := loadedField(c2.Call.Value); f == m.Agent && reent[c2.Call.Method.Name()] {
+				if !seen[in] {
+					seen[in] = true
+					rc.Instance(fnName(fn)+"|"+c2.Call.Method.Name(), true, map[string]interface{}{"call": "agent." + c2.Call.Method.Name(), "at": p.pos(instrPos(in))})
+				}
+				if st&regBit != 0 && (regCall == nil || c.NilState(regCall) != -1) && !rep[in] {
+					rep[in] = true
+					rc.ViolationPath(fn, instrPos(in), "agent."+c2.Call.Method.Name()+" while registered", "the agent invokes the client callback synchronously from this call while the transaction is still in the client table: the nested callback finds it, retransmits or completes it, and the outer call then completes and recycles the same object again (extra writes, double put, a live entry deleted)", c.Witness(fn, in))
+				}
+			}
+		}
+		return st, false
+	}
+	q.Run()
+	if q.Exhausted {
+		rc.Violation(fn, fn.Pos(), "path exploration exhausted", "undecided")
 	}
 }
